@@ -146,6 +146,35 @@ def check_mask_lockstep(ck: Checker, prog: Program, rule: str, modules=("hvsr_tr
     ck.floor(rule, n, floor, "stores to the accept masks")
 
 
+def _scalar_is_bool(f: Func, e: ast.AST, depth: int = 0) -> bool:
+    """The expression is a Python / numpy boolean whatever the data: a literal, a comparison, not / and / or of such,
+    bool(...), any / all / isinstance(...), or a local name every definition of which is such an expression."""
+    if depth > 4 or e is None:
+        return False
+    if isinstance(e, ast.Constant):
+        return isinstance(e.value, bool)
+    if isinstance(e, ast.Compare):
+        return True
+    if isinstance(e, ast.UnaryOp) and isinstance(e.op, ast.Not):
+        return True
+    if isinstance(e, ast.BoolOp):
+        return all(_scalar_is_bool(f, v, depth + 1) for v in e.values)
+    if isinstance(e, ast.IfExp):
+        return _scalar_is_bool(f, e.body, depth + 1) and _scalar_is_bool(f, e.orelse, depth + 1)
+    if isinstance(e, ast.Call) and call_name(e) in ("bool", "bool_", "any", "all", "isinstance"):
+        return True
+    if isinstance(e, ast.NamedExpr):
+        return _scalar_is_bool(f, e.value, depth + 1)
+    if isinstance(e, ast.Name):
+        defs = [s_ for s_ in own_nodes(f.node) if isinstance(s_, (ast.Assign, ast.AnnAssign, ast.NamedExpr))
+                and any(isinstance(t, ast.Name) and t.id == e.id for t in (s_.targets if isinstance(s_, ast.Assign) else [s_.target]))]
+        others = [s_ for s_ in own_nodes(f.node) if isinstance(s_, (ast.AugAssign, ast.For, ast.With)) and e.id in {x.id for x in ast.walk(getattr(s_, "target", s_)) if isinstance(x, ast.Name) and isinstance(x.ctx, ast.Store)}]
+        if not defs or others or e.id in f.params:
+            return False
+        return all(_scalar_is_bool(f, d.value, depth + 1) for d in defs)
+    return False
+
+
 def _not_boolean(f: Func, v: ast.AST) -> Optional[str]:
     """None if the expression is known to be a boolean array, else the reason."""
     if isinstance(v, ast.Constant) and isinstance(v.value, bool):
@@ -183,11 +212,11 @@ def _not_boolean(f: Func, v: ast.AST) -> Optional[str]:
                     if isinstance(c.func, ast.Attribute) and isinstance(c.func.value, ast.Name) and c.func.value.id == a.id \
                             and c.func.attr in ("append", "insert", "extend"):
                         arg = c.args[-1] if c.args else None
-                        if not (isinstance(arg, ast.Constant) and isinstance(arg.value, bool)):
+                        if not _scalar_is_bool(f, arg):
                             return f"`{norm_key(c, 60)}` adds a non-literal-bool entry"
                 for s2 in own_nodes(f.node):
                     if isinstance(s2, ast.Assign) and isinstance(s2.targets[0], ast.Subscript) and unparse(s2.targets[0].value) == a.id:
-                        if not (isinstance(s2.value, ast.Constant) and isinstance(s2.value.value, bool)):
+                        if not _scalar_is_bool(f, s2.value):
                             return f"`{norm_key(s2, 60)}` stores a non-bool entry"
                 return None if defs else f"`{a.id}` has no visible definition"
             return None if isinstance(a, (ast.List,)) and all(isinstance(e, ast.Constant) and isinstance(e.value, bool) for e in a.elts) else f"np.array({unparse(a)})"
